@@ -181,7 +181,8 @@ def rand_cfg(rng):
     comp = rng.choice([None, None, "zlib", "lz4", "lzma"])
     bs = rng.choice(BLOCK_SIZES[:3] * 3 + [32768, 2, 3, 5, 63, 65])
     return V.Cfg(fmt, comp, bs, rng.choice(["UInt32", "UInt64"]), rng.choice(["<", ">"]), rng.random() < 0.5 and comp is None,
-                 version=rng.choice(["1.0", "1.0", "0.1", "2.2", "2.0"]), omit_header_type=rng.random() < 0.3)
+                 version=rng.choice(["1.0", "1.0", "0.1", "2.2", "2.0"]), omit_header_type=rng.random() < 0.3,
+                 omit_scalar_ncomp=rng.random() < 0.3)
 
 
 def rand_pair(rng):
